@@ -69,7 +69,9 @@ class FIBDemux(Device):
             self.ends[flow_id].put(packet)
         else:
             try:
-                assert self.outs
+                if not self.outs:
+                    # no output ports: no route, handled like a missing entry
+                    raise IndexError('FIBDemux has no output ports')
                 self.outs[self._fib[packet.flow_id]].put(packet)
             except (KeyError, IndexError, ValueError) as exc:
                 print("FIB Demux Error: " + str(exc))
